@@ -214,6 +214,7 @@ class Mon:
         in_run = None     # dict(mode, stop_at_start, polls, top, stop_seen, ...)
         self.cp = None        # closing phase: set of handles in the chain detached by uv__run_closing_handles
         truncated = False
+        self.vclock = None
         i = 0
         n = len(log)
         while i < n:
@@ -227,6 +228,7 @@ class Mon:
                 if o is None:
                     self.bad("C01", "obs-unparsable", "unparsable obs", i); i += 1; continue
                 self.check_obs(o, H, Rq, self.cp, i)
+                if self.vclock is None: self.vclock = o["now"]
                 if in_run is not None and o["stop"]:
                     self.note_stop(in_run, cbstack)
                 last_obs = o
@@ -296,6 +298,9 @@ class Mon:
                 elif op == "due_in" and hid in T and o0 and T[hid]["active"]:
                     if ret != max(0, T[hid]["due"] - o0["now"]):
                         self.bad("C03", "due-in", f"uv_timer_get_due_in {ret}, expected {max(0, T[hid]['due'] - o0['now'])}", i)
+                elif op == "advance":
+                    self.vclock = (self.vclock or 0) + int(text[1])
+                    if in_run is not None: in_run["adv_since_poll"] = True
                 elif op == "alive" and nxt and ret != nxt["alive"]:
                     self.bad("C01", "alive-getter", "uv_loop_alive() differs from the observation", i)
                 elif op == "backend_timeout" and o0:
@@ -323,7 +328,10 @@ class Mon:
                 self.stats["runs"] += 1
                 in_run = dict(mode=l.split()[1], stop_at_start=bool(last_obs and last_obs["stop"]), top=[], stop_limit=None,
                               obs_at_start=last_obs, closing_at_start={h for h, d in H.items() if d["closing"] and not d["dead"]},
-                              start_line=i, stop_seen=bool(last_obs and last_obs["stop"]), cur_iter=None, first_iter=None)
+                              start_line=i, stop_seen=bool(last_obs and last_obs["stop"]), cur_iter=None, first_iter=None,
+                              adv_since_poll=False, udp_since_poll=False,
+                              # uv_run starts with uv__update_time when the loop is dead, or in DEFAULT mode when alive and not stopped
+                              fresh=not (last_obs and (not last_obs["alive"] or (l.split()[1] == "DEFAULT" and not last_obs["stop"]))))
                 i += 1; continue
             if l.startswith("env poll"):
                 m = POLL_RE.match(l)
@@ -392,6 +400,8 @@ class Mon:
                 if in_run is not None:
                     if kind not in ("close", "udp_send"):
                         self.cp = None
+                    if kind in ("timer", "idle", "prepare"): in_run["fresh"] = True
+                    if kind == "udp_send": in_run["udp_since_poll"] = True
                     in_run["top"].append(("cb", kind, num, i))
                     self.on_top_cb(in_run, kind, num, i)
                 cbstack.append((kind, num)); depth += 1
@@ -500,6 +510,13 @@ class Mon:
 
     def on_poll(self, r, it, tmo, clock, res, o, H, Rq, T, i):
         first = r["cur_iter"] != it
+        if first:
+            # loop->time at the decision: observations printed after the end-of-iteration uv__update_time are
+            # exact; otherwise the loop time is the virtual clock (the update read it, nothing advanced it since)
+            o = dict(o)
+            if not r["fresh"]:
+                o["now"] = self.vclock
+            amb = r["udp_since_poll"] and r["adv_since_poll"]
         if r["cur_iter"] is not None and it not in (r["cur_iter"], r["cur_iter"] + 1):
             self.bad("C03", "iteration-count", f"loop_count jumped from {r['cur_iter']} to {it}", i)
         if first:
@@ -520,7 +537,7 @@ class Mon:
             zero, val, lenient = self.expected_timeout(r["mode"], o, r["obs_at_start"] if r["mode"] == "ONCE" else None, H, Rq, T)
             metrics = r.setdefault("metrics", None)
             want = 0 if zero else val
-            r["T"] = want; r["base"] = o["now"]; r["npoll_iter"] = 0; r["lenient"] = lenient
+            r["T"] = want; r["base"] = o["now"]; r["npoll_iter"] = 0; r["lenient"] = lenient or amb
             r["prev_clock"] = None
         r["npoll_iter"] += 1
         want, base = r["T"], r["base"]
@@ -547,6 +564,8 @@ class Mon:
             sig = "timeout-rule" if k == 1 else "block-bound"
             self.bad("C03", sig, f"poll #{k} of iteration {it} got timeout {tmo}; rule says {want} (mode {r['mode']}, metrics={int(self.metrics)}, "
                      f"now={o['now']}, elapsed since decision={0 if k == 1 else elapsed})", i)
+        self.vclock = clock
+        r["fresh"] = False; r["adv_since_poll"] = False; r["udp_since_poll"] = False
         r["prev_clock"] = clock
         r["prev_empty"] = res == [] or res == ["EINTR"]
         r["top"].append(("poll", it, None, i))
